@@ -19,6 +19,8 @@ import (
 	"fmt"
 	"sort"
 
+	"github.com/shopspring/decimal"
+
 	"github.com/XiaoMi/Gaea/util/hack"
 )
 
@@ -143,6 +145,10 @@ func cmpValue(v1 interface{}, v2 interface{}) int {
 		} else {
 			return 0
 		}
+	case decimal.Decimal:
+		// DECIMAL columns and SUM() results are parsed into decimal.Decimal by ParseText
+		s := v2.(decimal.Decimal)
+		return v.Cmp(s)
 	default:
 		//can not go here
 		panic(fmt.Sprintf("invalid type %T", v))
